@@ -3,6 +3,7 @@
    execute_error with the default_render_error fallback). *)
 From Coq Require Import List String Bool ZArith.
 Import ListNotations.
+From ClasticV Require Import Gen.MiscShape.
 From ClasticV Require Import Gen.DispatchShape Base.Py Base.Strs Gen.Tables Gen.NormPathGen Model.Dispatch Proofs.DispatchProofs.
 Local Open Scope string_scope.
 Local Open Scope list_scope.
@@ -100,3 +101,18 @@ Theorem C08_request_path_shape :
    "return inject(self._execute, injectables)"].
 Proof. repeat split; reflexivity. Qed.
 Print Assumptions C08_request_path_shape.
+
+(* obligation on the source: ErrorHandler.render_error and uncaught_to_response, statement by statement *)
+Theorem C08_handler_shape :
+  SK_ERRORHANDLER_RENDER_ERROR =
+  ["best_match = request.accept_mimetypes.best_match(MIME_SUPPORT_MAP)";
+   "_error.adapt(best_match)";
+   "return _error"] /\
+  SK_ERRORHANDLER_UNCAUGHT_TO_RESPONSE =
+  ["if self.reraise_uncaught";
+   "  raise";
+   "eh = _application.error_handler";
+   "exc_info = eh.exc_info_type.from_current()";
+   "return eh.server_error_type(repr(exc_info), exc_info=exc_info, source_route=_route)"].
+Proof. repeat split; reflexivity. Qed.
+Print Assumptions C08_handler_shape.
